@@ -14,14 +14,17 @@ FixedAgents / Grid2DMovingAgents, `a.cell = c`, `a.cell = None`, `move_to`, `mov
 `Grid2DMovingAgent.move`, `remove`, switching the empty-cell search strategy, `select_random_empty_cell`,
 `select_random_cell`) — accepted and rejected calls alike, with any arguments (unknown agents, coordinates
 that are no cell, missing directions, full cells, …) — *interleaved with connection edits*
-(`Cell.connect(other, key)` / `Cell.disconnect(other)` on cells of the space, after construction).
+(`Cell.connect(other, key)` / `Cell.disconnect(other)` on cells of the space, after construction) *and capacity writes*
+(`cell.capacity = k`, k an int ≥ 0 or None, by hand: `DOp.setCap`; the occupants of the cell stay, also when there are more
+than k of them — so "never more agents than the capacity" is NOT an invariant of these histories; what is: a cell never
+*accepts* an agent while it holds capacity-many or more, `C06_capacity`).
 `SpaceOK sp` holds for every grid (Moore / von Neumann in any dimension, hex), every `Network` and
 every `VoronoiGrid` of the model (`C06_spaces_wellformed`) and is kept by every edit.
 -/
 namespace Mesa.Cells
 
-/-- states reachable from a freshly built well-formed space by any history of agent operations and connection
-    edits; `sp` is the space as the edits left it -/
+/-- states reachable from a freshly built well-formed space by any history of agent operations, connection
+    edits and capacity writes; `sp` is the space as the edits left it -/
 def Reachable (sp : Space) (s : State) : Prop :=
   ∃ (sp0 : Space) (ops : List DOp), SpaceOK sp0 ∧ drun sp0 (init sp0) ops = (sp, s)
 
@@ -73,33 +76,82 @@ theorem C06_mirror {sp : Space} (hsp : SpaceOK sp) {s : State} (h : Reachable sp
     rw [e1] at e2; simpa using e2
   · exact ⟨hi.mem_cell a c hm, hi.occ_cells a c hm⟩
 
-/-- Capacity: after any history a cell with capacity k holds at most k agents — for every k, 0 included (a cell of
-    capacity 0, e.g. a tiny Voronoi cell under the default capacity function, never holds anybody: repair SC3). -/
-theorem C06_capacity {sp : Space} (hsp : SpaceOK sp) {s : State} (h : Reachable sp s) (c : Cid) (k : Nat)
-    (hk : sp.cap c = some k) : (s.occ c).length ≤ k :=
-  (reachable_inv hsp h).cap c k hk
+/-- Capacity, for capacities the program may rewrite (`cell.capacity = k`).
+    (1) *Acceptance* — after any history (capacity writes of every kind included), whatever operation comes next: a cell
+    with capacity k (0 included, repair SC3) ends up with at most k agents or with at most as many as it held; so a cell
+    that holds capacity-many agents or more (exactly when `add_agent` refuses: `fullFor`) never gains one, and a cell
+    below its capacity never goes above it.
+    (2) *Bound* — along a history that never lowers a capacity under the occupancy the cell has at that moment
+    (`CapRespecting`: raising, lifting to None, lowering down to the number of occupants are all allowed; a history without
+    capacity writes is the special case) every cell with capacity k holds at most k agents, at the end and hence throughout.
+    (The bound is not an invariant of all histories: `cell.capacity = 1` on a cell holding two leaves two — see the examples.) -/
+theorem C06_capacity :
+    (∀ {sp : Space}, SpaceOK sp → ∀ {s : State}, Reachable sp s → ∀ (op : Op) (c : Cid) (k : Nat), sp.cap c = some k →
+      (((step sp s op).1.occ c).length ≤ k ∨ ((step sp s op).1.occ c).length ≤ (s.occ c).length) ∧
+      (fullFor sp s c = true → ((step sp s op).1.occ c).length ≤ (s.occ c).length) ∧
+      ((s.occ c).length ≤ k → ((step sp s op).1.occ c).length ≤ k)) ∧
+    (∀ {sp0 : Space}, SpaceOK sp0 → ∀ (ops : List DOp), CapRespecting sp0 (init sp0) ops = true → ∀ (c : Cid) (k : Nat),
+      (drun sp0 (init sp0) ops).1.cap c = some k → ((drun sp0 (init sp0) ops).2.occ c).length ≤ k) := by
+  constructor
+  · intro sp hsp s h op c k hk
+    have hg := step_no_growth hsp.closed (reachable_inv hsp h) op c k hk
+    refine ⟨hg, fun hf => ?_, fun hle => ?_⟩
+    · obtain ⟨n, hn, hle⟩ := (fullFor_iff sp s c).mp hf
+      rw [hk] at hn
+      simp only [Option.some.injEq] at hn
+      omega
+    · omega
+  · intro sp0 hsp0 ops hr c k hk
+    have := (drun_inv0 hsp0 (inv_init sp0) ops hr).cap c k hk
+    omega
+
+/-- What a capacity write does (`space[c].capacity = k`, k an int or None): on a cell of the space it is accepted and changes
+    that cell's capacity and nothing else — the other capacities, the cells, the connections, the kind of the space and the
+    whole occupancy state (the occupants stay, also when they are more than k) —; on a coordinate that is no cell `space[c]`
+    raises KeyError and nothing changes.  `add_agent` / `is_full` read the new value from then on (`fullFor`, `isFull` take
+    the space as it is now). -/
+theorem C06_capacity_write (sp : Space) (s : State) (c : Cid) (k : Option Nat) :
+    (c ∈ sp.cells → (dstep sp s (.setCap c k)).2 = .ok ∧ (dstep sp s (.setCap c k)).1.1.cap c = k ∧
+      (∀ c', c' ≠ c → (dstep sp s (.setCap c k)).1.1.cap c' = sp.cap c')) ∧
+    (c ∉ sp.cells → (dstep sp s (.setCap c k)).2 = .err .key ∧ (dstep sp s (.setCap c k)).1.1.cap = sp.cap) ∧
+    (dstep sp s (.setCap c k)).1.2 = s ∧ (dstep sp s (.setCap c k)).1.1.cells = sp.cells ∧
+    (dstep sp s (.setCap c k)).1.1.conn = sp.conn ∧ (dstep sp s (.setCap c k)).1.1.isGrid = sp.isGrid := by
+  refine ⟨fun hc => ?_, fun hc => ?_, rfl, editSp_cells sp _, editSp_conn_setCap sp c k, editSp_isGrid sp _⟩
+  · simp only [dstep, editSp, hc, if_true, setCapSp, upd_same]
+    exact ⟨trivial, trivial, fun c' hc' => upd_other _ _ _ hc'⟩
+  · simp only [dstep, editSp, hc, if_false]
+    exact ⟨trivial, trivial⟩
 
 /-- The default `capacity_function` of `VoronoiGrid` (`round_float`): the i-th cell, of exact area `num/den`, gets
     the capacity `k = int(500 · area)`, i.e. `k ≤ 500 · num/den < k + 1`, whatever `capacity` was passed to the
-    constructor; and after any history the cell holds at most `k` agents (each cell its own bound; `k = 0`: nobody). -/
+    constructor; and after any history that leaves the capacities alone the cell holds at most `k` agents (each cell its own
+    bound; `k = 0`: nobody). -/
 theorem C06_voronoi_default_capacity (n : Nat) (tris : List (Nat × Nat × Nat)) (areas : List (Nat × Nat))
     (ht : ∀ t ∈ tris, t.1 < n ∧ t.2.1 < n ∧ t.2.2 < n) (i num den : Nat) (ha : areas[i]? = some (num, den)) (hd : 0 < den) :
     (vorSpaceAreas n tris areas).cap [(i : Int)] = some (roundFloat num den) ∧
     roundFloat num den * den ≤ 500 * num ∧ 500 * num < (roundFloat num den + 1) * den ∧
-    (∀ s, Reachable (vorSpaceAreas n tris areas) s → (s.occ [(i : Int)]).length ≤ roundFloat num den) := by
+    (∀ ops : List Op, ((run (vorSpaceAreas n tris areas) (init (vorSpaceAreas n tris areas)) ops).occ [(i : Int)]).length
+      ≤ roundFloat num den) := by
   have hcap : (vorSpaceAreas n tris areas).cap [(i : Int)] = some (roundFloat num den) := by
     simp [vorSpaceAreas, ha]
-  refine ⟨hcap, (roundFloat_spec num den hd).1, (roundFloat_spec num den hd).2, fun s hr => ?_⟩
-  exact (reachable_inv (vorSpaceAreas_ok n tris areas ht) hr).cap _ _ hcap
+  refine ⟨hcap, (roundFloat_spec num den hd).1, (roundFloat_spec num den hd).2, fun ops => ?_⟩
+  have := (run_invB (B := fun _ => 0) (vorSpaceAreas_ok n tris areas ht).closed (inv_init _) ops).cap _ _ hcap
+  omega
 
-/-- Emptiness views agree with the truth after any history: `is_empty` is "no agents"; `is_full` is exactly
+/-- Emptiness views agree with the truth after any history: `is_empty` is "no agents"; `add_agent` refuses (`fullFor`)
+    exactly when the cell has a capacity k (0 included) and holds k agents or more; `is_full` (`len == capacity`) implies
+    "refuses", and the two differ exactly on an over-full cell (more occupants than the capacity — possible only after the
+    program lowered `cell.capacity` under the occupancy): wherever the occupancy is within the capacity, `is_full` ⇔
     "`add_agent` would refuse" (every capacity: None, 0, k); on a grid the `empty` property layer / `cell.empty`
     holds `is_empty` for every cell; `empties` is the list of cells without agents; `space.agents` is the
     cells' agent lists chained — duplicate-free, containing exactly the listed agents, among them every
     agent still in the model that reports a cell. -/
 theorem C06_views {sp : Space} (hsp : SpaceOK sp) {s : State} (h : Reachable sp s) :
     (∀ c, isEmpty s c = true ↔ s.occ c = []) ∧
-    (∀ c, isFull sp s c = fullFor sp s c) ∧
+    (∀ c, (fullFor sp s c = true ↔ ∃ k, sp.cap c = some k ∧ k ≤ (s.occ c).length) ∧
+      (isFull sp s c = true → fullFor sp s c = true) ∧
+      (fullFor sp s c = true ∧ isFull sp s c = false ↔ ∃ k, sp.cap c = some k ∧ k < (s.occ c).length) ∧
+      ((∀ k, sp.cap c = some k → (s.occ c).length ≤ k) → isFull sp s c = fullFor sp s c)) ∧
     (sp.isGrid = true → ∀ c, s.flag c = some (isEmpty s c)) ∧
     (∀ c, c ∈ empties sp s ↔ c ∈ sp.cells ∧ s.occ c = []) ∧
     (spaceAgents sp s = sp.cells.flatMap s.occ ∧ (spaceAgents sp s).Nodup) ∧
@@ -115,15 +167,23 @@ theorem C06_views {sp : Space} (hsp : SpaceOK sp) {s : State} (h : Reachable sp 
     · rintro ⟨c, hm⟩; exact ⟨c, hi.occ_cells a c hm, hm⟩
   refine ⟨fun c => by simp [isEmpty], fun c => ?_, fun hg c => ?_, fun c => ?_, ⟨hsa, ?_⟩, hmem,
     fun a c hr hc => ?_⟩
-  · cases hk : sp.cap c with
-    | none => simp [isFull, fullFor, hk]
-    | some k =>
-      have hcap := hi.cap c k hk
-      simp only [isFull, fullFor, hk]
-      by_cases he : (s.occ c).length = k
-      · simp [he]
-      · have : ¬ (s.occ c).length ≥ k := by omega
-        simp [he, this]
+  · refine ⟨fullFor_iff sp s c, ?_, ?_, ?_⟩
+    · cases hk : sp.cap c with
+      | none => simp [isFull, hk]
+      | some k => simp only [isFull, fullFor, hk]; intro he; simp at he; simp; omega
+    · cases hk : sp.cap c with
+      | none => simp [isFull, fullFor, hk]
+      | some k => simp only [isFull, fullFor, hk]; simp; omega
+    · intro hb
+      cases hk : sp.cap c with
+      | none => simp [isFull, fullFor, hk]
+      | some k =>
+        have hcap := hb k hk
+        simp only [isFull, fullFor, hk]
+        by_cases he : (s.occ c).length = k
+        · simp [he]
+        · have : ¬ (s.occ c).length ≥ k := by omega
+          simp [he, this]
   · rcases hi.flag c with h1 | ⟨h1, _⟩
     · exact h1
     · rw [hg] at h1; simp at h1
@@ -263,20 +323,21 @@ theorem C06_direction_map_generated :
 theorem C06_invariant_all_histories {sp : Space} (hsp : SpaceOK sp) (ops : List Op) :
     Inv sp (run sp (init sp) ops) := run_inv hsp.closed (inv_init sp) ops
 
-/-- Connection edits after construction (`Cell.connect` / `Cell.disconnect`): for every history of agent
-    operations interleaved with edits, on every well-formed space, the edited space is still well-formed (its
-    connections lead to its own cells), it has the cells, capacities and kind it was built with, the occupancy
+/-- Connection edits (`Cell.connect` / `Cell.disconnect`) and capacity writes (`cell.capacity = k`) after construction:
+    for every history of agent operations interleaved with them, on every well-formed space, the edited space is still
+    well-formed (its connections lead to its own cells), it has the cells and kind it was built with — and the capacities it
+    was built with if the history writes none (what a write changes: `C06_capacity_write`) —, the occupancy
     state is `Reachable` (so every theorem of this file holds for it, with relative moves following the edited
-    connections) and satisfies the full invariant; histories without edits are the special case.  (An edit never
-    touches the occupancy state — by construction of `dstep`; the check compares the full observation after the
-    next operation.) -/
+    connections and placements asking the capacities as they are now) and satisfies the full invariant; histories without
+    edits are the special case.  (An edit never touches the occupancy state — by construction of `dstep`; the check compares
+    the full observation, capacities included, after every capacity write and after the next operation.) -/
 theorem C06_histories_with_connection_edits {sp0 : Space} (hsp0 : SpaceOK sp0) (ops : List DOp) :
     let r := drun sp0 (init sp0) ops
     SpaceOK r.1 ∧ Reachable r.1 r.2 ∧ Inv r.1 r.2 ∧
-    r.1.cells = sp0.cells ∧ r.1.cap = sp0.cap ∧ r.1.isGrid = sp0.isGrid ∧
+    r.1.cells = sp0.cells ∧ ((∀ o ∈ ops, o.isSetCap = false) → r.1.cap = sp0.cap) ∧ r.1.isGrid = sp0.isGrid ∧
     (∀ l : List Op, drun sp0 (init sp0) (l.map .op) = (sp0, run sp0 (init sp0) l)) := by
   obtain ⟨h1, h2, h3, h4, h5⟩ := drun_inv hsp0 (inv_init sp0) ops
-  exact ⟨h1, ⟨sp0, ops, hsp0, rfl⟩, h2, h3, h4, h5, fun l => drun_ops sp0 (init sp0) l⟩
+  exact ⟨h1, ⟨sp0, ops, hsp0, rfl⟩, h2, h3, h5, h4, fun l => drun_ops sp0 (init sp0) l⟩
 
 /-- `Grid2DMovingAgent` direction names on a `HexGrid` (tables and `DIRECTION_MAP` as the source has them now):
     the connection keys of a hex cell depend on the parity of its column `j = coordinate[1]`, so
@@ -419,15 +480,15 @@ theorem C06_cell_empty_attribute {sp : Space} (hsp : SpaceOK sp) {s : State} (h 
 
 /-- `a.cell = space[c]` (= `a.move_to(space[c])`) for a CellAgent / Grid2DMovingAgent, after any history, for any cell of the
     space: it is refused — "Cell is full", nothing changed — **iff** `c` is not the agent's own cell and `c` has a capacity
-    `n` and holds exactly `n` agents (so never for capacity `None`, always for capacity 0, and never when re-entering the own,
-    possibly full, cell); otherwise it returns, the agent reports `c`, `c`'s list is its old list without the agent plus
+    `n` and holds `n` agents or more (more: only after `cell.capacity` was lowered under the occupancy; so never for capacity
+    `None`, always for capacity 0, and never when re-entering the own, possibly full or over-full, cell: repair SC4); otherwise it returns, the agent reports `c`, `c`'s list is its old list without the agent plus
     the agent at the end, every other list is the old one without the agent (only the cell left changes), no other agent's
     cell changes and the model's registry is untouched. -/
 theorem C06_assignment_exact {sp : Space} (hsp : SpaceOK sp) {s : State} (h : Reachable sp s) (a : Aid) (k : AKind)
     (hk : s.kinds[a]? = some k) (hmob : k ≠ .fixed) (c : Cid) (hc : c ∈ sp.cells) :
     (step sp s (.moveTo a c) = step sp s (.setCell a (some c))) ∧
     ((step sp s (.setCell a (some c))).2 = .err .full ↔
-      s.cellOf a ≠ some c ∧ ∃ n, sp.cap c = some n ∧ (s.occ c).length = n) ∧
+      s.cellOf a ≠ some c ∧ ∃ n, sp.cap c = some n ∧ n ≤ (s.occ c).length) ∧
     ((step sp s (.setCell a (some c))).2 = .err .full → (step sp s (.setCell a (some c))).1 = s) ∧
     ((step sp s (.setCell a (some c))).2 ≠ .err .full →
       (step sp s (.setCell a (some c))).2 = .ok ∧
@@ -446,7 +507,7 @@ theorem C06_assignment_exact {sp : Space} (hsp : SpaceOK sp) {s : State} (h : Re
     simp only [step, hk, hc, if_true]
     cases k <;> simp_all [setCell]
   rw [hmove, hset, setCellMobile_eq hi hm]
-  have hff := fullFor_iff hi c
+  have hff := fullFor_iff sp s c
   have hother : ∀ c', s.cellOf a ≠ some c' → (s.occ c').erase a = s.occ c' := by
     intro c' hne
     apply List.erase_of_not_mem
@@ -460,7 +521,7 @@ theorem C06_assignment_exact {sp : Space} (hsp : SpaceOK sp) {s : State} (h : Re
     · have hn := hff.mp hf
       simp [hf, hn]
     · have hf' : fullFor sp s c = false := by simpa using hf
-      have hn : ¬ ∃ n, sp.cap c = some n ∧ (s.occ c).length = n := fun hx => hf (hff.mpr hx)
+      have hn : ¬ ∃ n, sp.cap c = some n ∧ n ≤ (s.occ c).length := fun hx => hf (hff.mpr hx)
       simp only [hf', Bool.false_eq_true, if_false]
       refine ⟨⟨fun hx => by simp at hx, fun hx => absurd hx.2 hn⟩, fun hx => by simp at hx, fun _ => ?_⟩
       refine ⟨trivial, by simp [place, upd_same], by simp [place, upd_same, hnc], fun c' hc' => ?_, fun b hb => ?_, rfl, rfl⟩
@@ -483,7 +544,7 @@ theorem C06_assignment_exact {sp : Space} (hsp : SpaceOK sp) {s : State} (h : Re
       · have hn := hff.mp hf
         simp [hf, hn, hne]
       · have hf' : fullFor sp s c = false := by simpa using hf
-        have hn : ¬ ∃ n, sp.cap c = some n ∧ (s.occ c).length = n := fun hx => hf (hff.mpr hx)
+        have hn : ¬ ∃ n, sp.cap c = some n ∧ n ≤ (s.occ c).length := fun hx => hf (hff.mpr hx)
         simp only [hf', Bool.false_eq_true, if_false]
         refine ⟨⟨fun hx => by simp at hx, fun hx => absurd hx.2 hn⟩, fun hx => by simp at hx, fun _ => ?_⟩
         refine ⟨trivial, by simp [place, upd_same], ?_, fun c' hc' => ?_, fun b hb => ?_, rfl, rfl⟩
@@ -498,7 +559,7 @@ theorem C06_assignment_exact {sp : Space} (hsp : SpaceOK sp) {s : State} (h : Re
 /-- `a.cell = None` on a mobile agent, after any history: always accepted; the agent reports no cell and is in no list,
     every list is the old one without the agent, nobody else is touched.  `FixedAgent`: `a.cell = space[c]` is refused with
     "Cannot move agent in FixedCell" iff the agent has ever been placed (also after its `remove()`), else with "Cell is
-    full" iff the cell holds as many agents as its capacity `n`, and accepted iff neither applies (no third refusal): then
+    full" iff the cell holds as many agents as its capacity `n` or more, and accepted iff neither applies (no third refusal): then
     the agent is appended to the cell's list. -/
 theorem C06_unplace_and_fixed_exact {sp : Space} (hsp : SpaceOK sp) {s : State} (h : Reachable sp s) (a : Aid) (k : AKind)
     (hk : s.kinds[a]? = some k) :
@@ -510,9 +571,9 @@ theorem C06_unplace_and_fixed_exact {sp : Space} (hsp : SpaceOK sp) {s : State} 
     (k = .fixed → ∀ c, c ∈ sp.cells →
       ((step sp s (.setCell a (some c))).2 = .err .fixed ↔ s.cellOf a ≠ none) ∧
       ((step sp s (.setCell a (some c))).2 = .err .full ↔
-        s.cellOf a = none ∧ ∃ n, sp.cap c = some n ∧ (s.occ c).length = n) ∧
+        s.cellOf a = none ∧ ∃ n, sp.cap c = some n ∧ n ≤ (s.occ c).length) ∧
       ((step sp s (.setCell a (some c))).2 = .ok ↔
-        s.cellOf a = none ∧ ¬ ∃ n, sp.cap c = some n ∧ (s.occ c).length = n) ∧
+        s.cellOf a = none ∧ ¬ ∃ n, sp.cap c = some n ∧ n ≤ (s.occ c).length) ∧
       ((step sp s (.setCell a (some c))).2 ≠ .ok → (step sp s (.setCell a (some c))).1 = s) ∧
       ((step sp s (.setCell a (some c))).2 = .ok →
         (step sp s (.setCell a (some c))).1.cellOf a = some c ∧
@@ -549,7 +610,7 @@ theorem C06_unplace_and_fixed_exact {sp : Space} (hsp : SpaceOK sp) {s : State} 
     have hset : step sp s (.setCell a (some c)) = setCellFixed sp s a (some c) := by
       simp only [step, hk, hc, if_true, setCell]
     rw [hset, setCellFixed_eq hi]
-    have hff := fullFor_iff hi c
+    have hff := fullFor_iff sp s c
     cases ho : s.cellOf a with
     | some o => simp
     | none =>
@@ -557,7 +618,7 @@ theorem C06_unplace_and_fixed_exact {sp : Space} (hsp : SpaceOK sp) {s : State} 
       · have hn := hff.mp hf
         simp [hf, hn]
       · have hf' : fullFor sp s c = false := by simpa using hf
-        have hn : ¬ ∃ n, sp.cap c = some n ∧ (s.occ c).length = n := fun hx => hf (hff.mpr hx)
+        have hn : ¬ ∃ n, sp.cap c = some n ∧ n ≤ (s.occ c).length := fun hx => hf (hff.mpr hx)
         simp only [hf', Bool.false_eq_true, if_false]
         refine ⟨by simp, ⟨fun hx => by simp at hx, fun hx => absurd hx.2 hn⟩, ⟨fun _ => ⟨trivial, hn⟩, fun _ => trivial⟩,
           fun hx => by simp at hx, fun _ => ?_⟩
@@ -734,6 +795,27 @@ example : selectRandomAgent s0 (nbhd (nbOfConn sp0.conn) 1 false [0, 0]) [5] = .
 -- exact outcomes: in `s0` (capacity 1, agent 0 at (0,0), agent 1 at (1,1)) agent 0 is refused by (1,1), accepted by its own
 -- full cell and by the free cell (0,1), which then lists it while (0,0) is empty again
 example : s0.cellOf 0 ≠ some [1, 1] ∧ sp0.cap [1, 1] = some 1 ∧ (s0.occ [1, 1]).length = 1 := by decide
+-- capacity writes: two agents in cell (0,0) of an unbounded grid, then `cell.capacity = 1`: both stay (the bound is broken by
+-- the program, the history is not `CapRespecting`), the cell refuses a third agent but is not `is_full`; agent 0 re-enters its
+-- own over-full cell (repair SC4: accepted, back at the end of the list); after `cell.capacity = None` the third agent is
+-- taken; `cell.capacity = 2` on the two occupants is `CapRespecting` and makes the cell `is_full`; no such cell: KeyError
+private def w0 : Space := gridSpace .vn [1, 2] false none
+private def wops : List DOp :=
+  [.op (.new .cell), .op (.new .cell), .op (.new .cell), .op (.setCell 0 (some [0, 0])), .op (.setCell 1 (some [0, 0])),
+   .setCap [0, 0] (some 1)]
+example : SpaceOK w0 := gridSpace_ok _ _ _ _ (by simp)
+example : (drun w0 (init w0) wops).1.cap [0, 0] = some 1 ∧ (drun w0 (init w0) wops).1.cap [0, 1] = none ∧
+    (drun w0 (init w0) wops).2.occ [0, 0] = [0, 1] ∧ CapRespecting w0 (init w0) wops = false := by decide
+example : fullFor (drun w0 (init w0) wops).1 (drun w0 (init w0) wops).2 [0, 0] = true ∧
+    isFull (drun w0 (init w0) wops).1 (drun w0 (init w0) wops).2 [0, 0] = false ∧
+    (dstep (drun w0 (init w0) wops).1 (drun w0 (init w0) wops).2 (.op (.setCell 2 (some [0, 0])))).2 = .err .full ∧
+    (dstep (drun w0 (init w0) wops).1 (drun w0 (init w0) wops).2 (.op (.setCell 0 (some [0, 0])))).2 = .ok ∧
+    (drun w0 (init w0) (wops ++ [.op (.setCell 0 (some [0, 0]))])).2.occ [0, 0] = [1, 0] := by decide
+example : (drun w0 (init w0) (wops ++ [.setCap [0, 0] none, .op (.setCell 2 (some [0, 0]))])).2.occ [0, 0] = [0, 1, 2] ∧
+    (dstep w0 (init w0) (.setCap [0, 2] (some 1))).2 = .err .key := by decide
+example : CapRespecting w0 (init w0) (wops.dropLast ++ [.setCap [0, 0] (some 2)]) = true ∧
+    isFull (drun w0 (init w0) (wops.dropLast ++ [.setCap [0, 0] (some 2)])).1 (drun w0 (init w0) (wops.dropLast ++ [.setCap [0, 0] (some 2)])).2 [0, 0] = true := by
+  decide
 example : (step sp0 s0 (.setCell 0 (some [0, 1]))).1.occ [0, 1] = [0] ∧ (step sp0 s0 (.setCell 0 (some [0, 1]))).1.occ [0, 0] = [] ∧
     (step sp0 s0 (.moveTo 0 [0, 0])).2 = .ok ∧ (step sp0 s0 (.setCell 0 none)).1.cellOf 0 = none := by decide
 -- capacity 0 is a capacity (repair SC3; it used to be falsy = unlimited): a capacity-0 cell refuses everybody, stays empty — also in
